@@ -64,6 +64,7 @@ type Run struct {
 	slowFor     time.Duration // how long a slow Close body stays inside Close
 	inClose     map[int]int   // owner -> Close bodies in progress (owners are scope handles of the provider in use, or ownerProv)
 	closeProv   *provRec      // the provider whose scopes the owners refer to
+	sharedVals  map[[2]int]godi.ModuleOption
 	sharedMods  map[int][]godi.ModuleOption
 }
 
@@ -657,7 +658,16 @@ func (r *Run) moduleOption(m Module) godi.ModuleOption {
 				}
 				r.sharedMods[m.Shared] = subs
 			}
-			return godi.NewModule("m"+strconv.Itoa(m.Name), subs...)
+			// ... and under one name the very same module value is used again (a shared sub-module listed twice)
+			if r.sharedVals == nil {
+				r.sharedVals = map[[2]int]godi.ModuleOption{}
+			}
+			if mo, ok := r.sharedVals[[2]int{m.Shared, m.Name}]; ok {
+				return mo
+			}
+			mo := godi.NewModule("m"+strconv.Itoa(m.Name), subs...)
+			r.sharedVals[[2]int{m.Shared, m.Name}] = mo
+			return mo
 		}
 		subs := make([]godi.ModuleOption, len(m.Mods))
 		for i, sm := range m.Mods {
